@@ -388,6 +388,15 @@ Theorem C18_cleaning_only_through_CleanStorage :
 Proof. exact consts_callers_ok. Qed.
 Print Assumptions C18_cleaning_only_through_CleanStorage.
 
+(** the file back-end's Delete is os.RemoveAll of the key's path -- recursive, as [remove] / [removep] model it -- and
+    deleting a missing key is not an error *)
+Theorem C18_file_delete_is_recursive :
+  clean_fs_delete_fn = [111; 115; 46; 82; 101; 109; 111; 118; 101; 65; 108; 108]%N /\
+  clean_fs_delete_arg = [115; 46; 70; 105; 108; 101; 110; 97; 109; 101; 40; 107; 101; 121; 41]%N /\
+  clean_fs_delete_missing_ok = true.
+Proof. exact consts_fs_delete_ok. Qed.
+Print Assumptions C18_file_delete_is_recursive.
+
 (** ** a cleaner that is KILLED while it holds the storage_clean lock (its process dies when its call number n
     begins; [cleank]: the resumption stops, nothing is released -- on FileStorage the lock file stays, goes stale
     after 2 x lockFreshnessInterval and is removed by the next cleaner, C08_stale_recovers): the storage it leaves is
